@@ -12,7 +12,7 @@ PROOF_TECH = "Coq invariant proof over a hand-written model + differential corre
 
 CHECKS = {
  "C01": ("proof", "Theorems (Properties/C01.v) for every component (map, filter, scan, skip, take n>=1, from_iter with any iterator, "
-         "interval, merge! of any n>=1 with late greeters, concat! of any n, share with any number of sinks; flatten: see C11) and every "
+         "interval, merge! of any n>=1 with late greeters, concat! of any n, flatten, share with any number of sinks) and every "
          "configuration reachable under the conformant environment (unbounded nesting and history): greet_once and greet_first of the "
          "trace (readable, monitor-free predicates of MonitorSound.v). combine!: the monitor never records a C01 kind (any arity). "
          "The tie to the code is the correspondence check run on every invocation; the extracted monitors also run on the real traces.",
@@ -41,6 +41,10 @@ CHECKS = {
          "Pull is re-issued at a boundary iff the sink has pulled (concat_pull_carried), no subscription after the end (concat_safe).", PROOF_TECH),
  "C10": ("proof", "Theorems for every arity n>=1: every tuple holds each member's latest value, none before all have one (combine_tuples); "
          "completion exactly when all members ended (combine_completes). Pull reaching ended members is KF2 (C04).", PROOF_TECH),
+ "C11": ("proof", "Theorems (Inv_flatten.v): at every control point at most one inner source is live and it is the stored one (C11_switch); the sink "
+         "receives exactly the inner payloads in arrival order (C11_order); a live sink always has a live source behind it and Terminate is "
+         "sent only when the outer has completed and no inner is live (C11_completes); each inner/outer subscribed once, stopped once, pulled "
+         "only while live (C11_dispose_once); local steps: Pull routing, one Pull on an inner's greeting, the switch.", PROOF_TECH),
  "C12": ("proof", "Theorems for any number of sinks, no nested fan-out (as C12 quantifies): one upstream subscription, started exactly when a "
          "sink attaches to an empty list (share_one_upstream), upstream alive iff some sink attached at quiescence (share_refcount).", PROOF_TECH),
  "C13": ("proof", "Model: a subscription is a configuration; proved: the state after ISub does not depend on the state before (sub_fresh, all "
@@ -48,8 +52,9 @@ CHECKS = {
          "scripts on the crate (same source value subscribed twice) against two independent model configurations, plus a direct projection "
          "test on the crate (projection of the two-subscription trace = the crate's own solo run).",
          "Coq product/freshness theorems + two-subscription correspondence and projection test on the crate"),
- "C14": ("proof", "PARTIAL. Pull regime (pullable upstreams, one Pull per message): proved for map, filter, scan, skip that OverPull/OverData/"
-         "Unanswered never fire; from_iter laziness is C15; take, concat!, flatten: monitors on the crate + correspondence only so far.", PROOF_TECH),
+ "C14": ("proof", "PARTIAL. Pull regime (pullable upstreams, one Pull per message): proved for map, filter, scan, skip, take, from_iter, concat! "
+         "(any n) that OverPull/OverData/Unanswered never fire, with the counting invariants (owed + ndata = npull, credit + owed = 1). "
+         "flatten: monitors on the crate + correspondence only (no pull-regime theorem yet).", PROOF_TECH),
  "C15": ("proof", "Theorems for every iterator (not assumed fused): no violation incl. no nested delivery, the loop-frame shape (at most one "
          "delivery in progress), items in order, never advanced without a Pull, Terminate exactly at the first None, nothing after disposal.",
          PROOF_TECH),
@@ -61,8 +66,10 @@ CHECKS = {
          PROOF_TECH),
  "C18": ("proof", "Interleaving model (Threads.v, SC at the granularity of instrumented accesses): exhaustively explored in the extracted model, "
          "compared event by event with real OS threads under the token-passing scheduler through the cfg(callbag_verif) hooks. Invariant "
-         "proofs over all schedules: see Properties/C18.v (in progress where marked).",
-         "Coq interleaving model + scheduler-controlled differential test (proofs over all schedules in progress)"),
+         "proofs over ALL schedules, any n, queues and endings (at most one failing member), for combine! and merge!: greeted once, data "
+         "exactly once in member order / complete tuples of sent values, one terminal after every data delivery returned, no panic; the "
+         "pinned tree's combine is refuted by a machine-checked schedule.",
+         "Coq invariant proofs over an interleaving model + scheduler-controlled differential test against real threads"),
  "C19": ("proof", "As C18 for take(n): the repaired code (fetch_update) never over-delivers under any schedule; the unrepaired code is refuted "
          "by a machine-checked schedule that is also replayed on the crate.",
          "Coq interleaving model + scheduler-controlled differential test"),
@@ -87,7 +94,7 @@ def main():
             "technique": tech,
         })
     allp = ["C%02d" % i for i in range(1, 21)]
-    na = [{"property_id": p, "reason": "theorems not integrated yet (flatten invariant proof in progress); monitors and correspondence exist, see DESIGN.md"}
+    na = [{"property_id": p, "reason": "not claimed, see DESIGN.md"}
           for p in allp if p not in CHECKS]
     man = {
         "version": 1,
